@@ -2,6 +2,7 @@ package main
 
 import (
 	"bufio"
+	"context"
 	"errors"
 	"fmt"
 	"os"
@@ -128,4 +129,10 @@ func atoiList(s string) []int {
 		out = append(out, v)
 	}
 	return out
+}
+
+// startCtx returns a context for a component's Start call and the function that ends it right afterwards: a
+// component must not keep depending on its start-up context (lifecycle hooks hand out short-lived ones).
+func startCtx() (context.Context, context.CancelFunc) {
+	return context.WithCancel(context.Background())
 }
